@@ -161,7 +161,7 @@ def case_truth(case):
     from glotaran.optimization.optimizer import Optimizer
     from glotaran.project import Scheme
 
-    if case["mode"] == "full" and (case["addon"] != "none" or case["irf"] in ("dispersed",)):
+    if case["mode"] == "full" and case["addon"] != "none":
         return core.ood("full-model-with-addon-not-in-space")
     if case["addon"] == "artifact" and case["irf"] == "none":
         return core.ood("artifact-needs-irf")
@@ -185,8 +185,9 @@ def case_truth(case):
         warnings.simplefilter("ignore")
         _, _, data2, _, _ = simulate_all(case, md, vals, species, extra, ds_labels)
         if case.get("noise"):
-            _, _, n1, _, _ = simulate_all(case, md, vals, species, extra, ds_labels, noise_seed=7)
-            _, _, n2, _, _ = simulate_all(case, md, vals, species, extra, ds_labels, noise_seed=7)
+            # seed 0 is a seed like any other
+            _, _, n1, _, _ = simulate_all(case, md, vals, species, extra, ds_labels, noise_seed=0)
+            _, _, n2, _, _ = simulate_all(case, md, vals, species, extra, ds_labels, noise_seed=0)
             _, _, n3, _, _ = simulate_all(case, md, vals, species, extra, ds_labels, noise_seed=8)
             for lab in ds_labels:
                 if not np.array_equal(n1[lab].data.values, n2[lab].data.values):
